@@ -178,56 +178,86 @@ def _lowered_wheres(rec):
     return out
 
 
+def _assigned(w):
+    _, asgs = _where_exprs(w)
+    return {s["lhs"]["name"] for s in asgs}
+
+
+def _reads(w):
+    """every expression of a WHERE that is evaluated: masks and right-hand sides"""
+    masks, asgs = _where_exprs(w)
+    return masks + [s["rhs"] for s in asgs]
+
+
+_REDUCTIONS = ("SUM", "PRODUCT", "MAXVAL", "MINVAL", "SIZE")
+
+
 def m_where_lower_bound(rec, clause, detail, finding):
-    '''the mask's first array section is a full-range section of an array whose
-    declared lower bound is not 1: the generated loop runs 1..upper-bound'''
-    if clause != "ReaderNoNewUndefined":
+    '''the first array section of the mask (the one the reader takes the loop
+    bounds from) spans the full declared range of a dimension whose declared
+    lower bound is not 1: the generated loop runs 1..declared upper bound'''
+    if not clause.startswith("Reader"):
         return False
     for w in _lowered_wheres(rec):
         for nd, pos, r in _sections(w["mask"]):
-            if _dims(nd["name"])[pos][0] != 1 and r["lo"]["k"] == "none" and r["hi"]["k"] == "none":
+            if _dims(nd["name"])[pos][0] != 1 and _is_full(nd["name"], pos, r):
                 return True
             break
     return False
 
 
-def m_where_reduction(rec, clause, detail, finding):
-    '''a lowered WHERE contains a reduction / inquiry intrinsic over an array
-    section: its argument is indexed by the loop variable (SUM(a(i)))'''
+def m_where_reduction_indexed(rec, clause, detail, finding):
+    '''a lowered WHERE contains a reduction / SIZE over an array *section*:
+    the section inside the intrinsic is indexed by the loop variable too
+    (SUM(a(:)) becomes SUM(a(widx1)))'''
     if not clause.startswith("Reader"):
         return False
     for w in _lowered_wheres(rec):
-        for nd in G.walk(w):
-            if nd.get("k") == "icall" and nd["name"] in ("SUM", "PRODUCT", "MAXVAL", "MINVAL", "SIZE") \
+        for nd in G.walk(_reads(w)):
+            if nd.get("k") == "icall" and nd["name"] in _REDUCTIONS \
                     and any(True for _ in _sections(nd["args"])):
                 return True
     return False
 
 
+def m_where_reduction_reevaluated(rec, clause, detail, finding):
+    '''a lowered WHERE contains a reduction over a whole array (no array
+    notation) that the WHERE assigns: it is re-evaluated in every iteration of
+    the element loop, after earlier elements have been overwritten'''
+    if clause != "ReaderSameObservable":
+        return False
+    for w in _lowered_wheres(rec):
+        tgt = _assigned(w)
+        for nd in G.walk(_reads(w)):
+            if nd.get("k") == "icall" and nd["name"] in _REDUCTIONS and \
+                    any(x.get("k") == "ref" and x["name"] in tgt for x in G.walk(nd["args"])):
+                return True
+    return False
+
+
 def m_where_stride(rec, clause, detail, finding):
-    '''a lowered WHERE contains a section with a non-unit stride'''
+    '''a lowered WHERE contains a section with a non-unit stride (ignored)'''
     if not clause.startswith("Reader"):
         return False
     for w in _lowered_wheres(rec):
-        for nd, pos, r in _sections(w):
+        for nd, pos, r in _sections(_reads(w)):
             if r["st"]["k"] != "none" and not (r["st"]["k"] == "lit" and r["st"].get("v") == 1):
                 return True
     return False
 
 
 def m_where_carried(rec, clause, detail, finding):
-    '''an assignment of a lowered WHERE reads a single element of the array it
-    assigns (b(:) = b(:) + b(1)): the element loop overwrites it first'''
+    '''a mask or right-hand side of a lowered WHERE reads a single element of
+    an array the WHERE assigns (b(:) = b(:) + b(1)): the element loop has
+    already overwritten it'''
     if clause != "ReaderSameObservable":
         return False
     for w in _lowered_wheres(rec):
-        _, asgs = _where_exprs(w)
-        for s in asgs:
-            tgt = s["lhs"]["name"]
-            for nd in G.walk(s["rhs"]):
-                if nd.get("k") == "aref" and nd["name"] == tgt and \
-                        not any(ix.get("k") == "range" for ix in nd["idx"]):
-                    return True
+        tgt = _assigned(w)
+        for nd in G.walk(_reads(w)):
+            if nd.get("k") == "aref" and nd["name"] in tgt and \
+                    not any(ix.get("k") == "range" for ix in nd["idx"]):
+                return True
     return False
 
 
@@ -246,7 +276,8 @@ def m_pow_left(rec, clause, detail, finding):
 
 
 MATCHERS = {"where-nonunit-lower-bound": m_where_lower_bound,
-            "where-reduction-argument-indexed": m_where_reduction,
+            "where-reduction-argument-indexed": m_where_reduction_indexed,
+            "where-reduction-reevaluated": m_where_reduction_reevaluated,
             "where-section-stride-ignored": m_where_stride,
             "where-loop-carried-read": m_where_carried,
             "left-nested-power-unparenthesised": m_pow_left}
@@ -344,7 +375,7 @@ def run(tier):
     progs = G.programs(tier, core.seed())
     only = os.environ.get("C01_ONLY")
     if only:
-        progs = [p for p in progs if p.pid.startswith(only)]
+        progs = [p for p in progs if any(p.pid.startswith(o) for o in only.split(","))]
     _PROGS = progs
     try:
         recs = core.pool_map(_build, list(range(len(progs))),
